@@ -345,8 +345,28 @@ func ruleCaptureBeforeProject(c *Check, rule string) {
 			}
 		}
 	}
+	// the projection is unconditional in shadow mode: a successful end of the
+	// transaction body without shadowToMain leaves the merged data in the shadow
+	// DBIs only (the application never sees it, and the transaction commits)
+	nProj := 0
+	for i := range paths {
+		p := &paths[i]
+		if p.End != "return" || !retIsNilErr(p) {
+			continue
+		}
+		native, f := boolCond(p, roles.native, -1)
+		if f && native {
+			continue
+		}
+		nProj++
+		if len(callsOf(p, fnShToMain)) == 0 {
+			bad++
+			c.Bad(rule, fnLoadTxn+"/project-unconditional", "shadow mode: the transaction body ends successfully without running shadowToMain: what was merged into the shadow DBIs is not projected into the application's DBIs although the load is reported as done", c.pathPos(p), describe(c, p))
+		}
+	}
+	c.Floor(rule, nProj, 1, "successful shadow-mode ends of the load body")
 	if bad == 0 {
-		c.Ok(rule, fnLoadTxn+"/capture-before-project", fmt.Sprintf("all %d paths reaching shadowToMain either ran mainToShadow on the same txn before, or took the edge localChanged == false", n), pos)
+		c.Ok(rule, fnLoadTxn+"/capture-before-project", fmt.Sprintf("all %d paths reaching shadowToMain either ran mainToShadow on the same txn before, or took the edge localChanged == false; every successful shadow-mode end ran shadowToMain", n), pos)
 	}
 	c.Floor(rule, n, 2, "paths reaching shadowToMain")
 	// localChanged ≡ lastTxnID < txn.ID() - 1, with lastTxnID the parameter of LoadOnce
